@@ -388,7 +388,7 @@ func (w *accWorld) checkV2(vc *ref.VerifyClient) bool {
 
 func (w *accWorld) finishBody(conns map[string]*accConn, cs *accConn, kind string) ([]byte, error) {
 	rnd := func(n int) []byte { b := make([]byte, n); w.rng.Read(b); return b }
-	needs := map[string]bool{"genuine": true, "wrongkey": true, "stale": true, "reordered": true, "unknown": true, "self": true, "reflect": true, "badtlv": true}
+	needs := map[string]bool{"genuine": true, "wrongkey": true, "stale": true, "reordered": true, "unknown": true, "self": true, "selfkey": true, "reflect": true, "badtlv": true}
 	if needs[kind] && cs.cur == nil {
 		return nil, fmt.Errorf("VFinish(%s) on %s without an accepted start: not concretisable", kind, cs.name)
 	}
@@ -407,7 +407,7 @@ func (w *accWorld) finishBody(conns map[string]*accConn, cs *accConn, kind strin
 	}
 	if cs.cur == nil {
 		switch kind {
-		case "genuine", "wrongkey", "reordered", "unknown", "self", "reflect", "crossname":
+		case "genuine", "wrongkey", "reordered", "unknown", "self", "selfkey", "reflect", "crossname":
 			return nil, fmt.Errorf("%s finish without an accepted start on this connection", kind)
 		}
 	}
@@ -448,6 +448,14 @@ func (w *accWorld) finishBody(conns map[string]*accConn, cs *accConn, kind strin
 		return ref.WrapV3(key, sign(cs.id.Priv, "nobody-"+cs.name, cs.cur.Eph.Pub[:], cs.cur.AccPub)).Encode(), nil
 	case "self":
 		return ref.WrapV3(key, sign(cs.id.Priv, w.accID, cs.cur.Eph.Pub[:], cs.cur.AccPub)).Encode(), nil
+	case "selfkey":
+		// the accessory's own identifier, signed with the accessory's own long-term key (taken from its database)
+		for _, e := range w.tr.Entities() {
+			if e.Name == w.accID && len(e.PrivateKey) == ed25519.PrivateKeySize {
+				return ref.WrapV3(key, sign(ed25519.PrivateKey(e.PrivateKey), w.accID, cs.cur.Eph.Pub[:], cs.cur.AccPub)).Encode(), nil
+			}
+		}
+		return nil, fmt.Errorf("selfkey finish: the accessory's key pair is not in its database")
 	case "reflect":
 		// the accessory's own identifier with the accessory's own signature from its start response
 		var t ref.TLV
